@@ -26,7 +26,7 @@ class C12(Prop):
     pid = "C12"
     rule = ("exhaustive: producer histories of 0..n writes (quick: n = 3, sizes from {0,1,3}; thorough: n = 4, sizes from {0,1,2,5}) then drop, "
             "interleaved in every order-preserving way with every consumer program of the list "
-            "(switch→await, readiness polls, len, expect_closed_write), both staging modes, at the granularity of "
+            "(switch→await, readiness polls, len, expect_closed_write), both staging modes, real destinations that take everything or only 1 / 2 / 1000 bytes per write call, at the granularity of "
             "the public calls (await/len/expect run on a helper thread and must stay blocked until the drop); "
             "plus the staging buffers where the writers use them (per-chromosome data and zoom buffers redirected, awaited and taken back), on "
             "current-thread / 1 / 2 / 8-worker executors × single / two pass × in-memory / temp-file staging, read back in full; "
@@ -53,7 +53,11 @@ class C12(Prop):
                             if tier != "thorough" and inmem == 0 and (k % 3):
                                 k += 1
                                 continue
-                            c = CaseT(f"tb{k}", "tempbuf", [], [f"OPT inmem={inmem} d0=aa55", "SCHED " + " ".join(m)])
+                            # every fourth schedule: a real destination whose write() accepts only 1 or 2 bytes per call
+                            dm = f" destmax={1 + (k // 4) % 2}" if (k // 2) % 2 == 0 else ""       # both staging modes (k alternates them)
+                            c = CaseT(f"tb{k}", "tempbuf", [], [f"OPT inmem={inmem} d0=aa55{dm}", "SCHED " + " ".join(m)])
+                            if dm:
+                                c.tags.add("destination_accepts_short_writes")
                             if nw and any(t in m[: m.index("D")] for t in ("S", "A", "X", "L")):
                                 c.tags.add("consumer_before_drop")
                             c.tags.add("prog_" + "".join(prog))
@@ -68,7 +72,10 @@ class C12(Prop):
             for prog in (["S", "A"], ["X"], ["L"]):
                 for m in merges(prod, prog):
                     for inmem in (0, 1):
-                        c = CaseT(f"tb{k}", "tempbuf", [], [f"OPT inmem={inmem} d0=aa55", "SCHED " + " ".join(m)])
+                        dm = " destmax=1000" if (k // 2) % 2 == 0 else ""
+                        c = CaseT(f"tb{k}", "tempbuf", [], [f"OPT inmem={inmem} d0=aa55{dm}", "SCHED " + " ".join(m)])
+                        if dm:
+                            c.tags.add("destination_accepts_short_writes")
                         c.tags |= {"large_writes", "prog_" + "".join(prog), "inmem" if inmem else "tempfile", "consumer_before_drop"}
                         out.append(c)
                         k += 1
